@@ -9,6 +9,7 @@ import Gv.Model.Compress
 import Gv.Oracle.Mask
 import Gv.Model.Translate
 import Gv.Model.Stats
+import Gv.Model.Regex
 import Gv.Oracle.CliDefaults
 /-!
 Command-line glue (flag parsing, defaults, conversions, readers and writers) checked against the library
@@ -232,9 +233,105 @@ def numGapsFromEnd (s : Seq) : Nat := (s.reverse.takeWhile (· == GAP)).length
 def numGapsOpenning (s : Seq) : Nat :=
   (s.foldl (fun (acc : Nat × Byte) c => (if c == GAP && acc.2 != GAP then acc.1 + 1 else acc.1, c)) (0, 62)).1
 
+/-- a pattern given to `-e`: outer `none` = outside the modelled subset of Go's regexp (`Gv/Model/Regex.lean`),
+`some none` = `regexp.Compile` fails -/
+def compileRe (pat : String) : Option (Option Regex.Re) :=
+  match Regex.parse pat with
+  | .ok re => some (some re)
+  | .bad => some none
+  | .unknown => none
+
+/-- `rename -e <regexp> -b <replacement> [-m <map file>]` (cmd/rename.go, one alignment).  Outer `none` = not
+modelled; `some none` = a failing status (`--regexp` without `--replace`; an expression that does not compile);
+else the renamed rows (`RenameRegexp`: every name replaced in place, names made equal stay equal) and the map
+`old name -> new name`, which the command writes to the map file when one is given. -/
+def renameRegexpResult (rows : Rows) (fl : List String) : Option (Option (Rows × List (String × String) × String)) := do
+  let o ← parseOpts [("-e", "--regexp"), ("-b", "--replace"), ("-m", "--map-file")] [] ["--regexp", "--replace", "--map-file"] fl
+  if (← effective "renameCmd" "output") != "stdout" || (← effective "renameCmd" "clean-names") != "false" ||
+     (← effective "renameCmd" "unaligned") != "false" then none
+  let mf ← optOr o "renameCmd" "map-file"
+  let pat := (o.reverse.find? (·.1 == "--regexp")).map (·.2)
+  let rep := (o.reverse.find? (·.1 == "--replace")).map (·.2)
+  match pat, rep with
+  | none, _ => none                      -- no expression: the map-file mode
+  | some _, none => some none
+  | some p, some t =>
+    if rows.isEmpty then none else
+    match ← compileRe p with
+    | none => some none
+    | some re =>
+      let names ← rows.mapM fun r => Regex.replaceAll re t r.1
+      -- a new name the FASTA writer / the wire form cannot carry
+      if names.any (fun n => n.any fun c => c == '\n' || c == '|' || c == '\t' || c == '~' || c == '=' || c == ';') then none else
+      let r := renameRegexp names (bagOf rows)
+      some (some (pairs r.1, r.2, mf))
+
+/-- `subset` (cmd/subset.go) on one alignment: `given` = the names, 0-based indices (`--indices`) or regular
+expressions (`-e`, priority) taken from the command line or from the name file; `-r` keeps the complement -/
+def subsetExpected (rows : Rows) (given fl : List String) : Option String :=
+  let rev := flag fl "-r" || flag fl "--revert"
+  if flag fl "-e" || flag fl "--regexp" then
+    -- the names are regular expressions (priority over `--indices`, whose conversion to integers comes first and
+    -- can still fail); an expression that does not compile is an error; a row is selected when one of them matches
+    if !(fl.all fun a => !a.startsWith "-" || ["-e", "--regexp", "-r", "--revert", "--indices"].contains a) then none else
+    if flag fl "--indices" && !(given.all fun g => (parseInt? g).isSome) then
+      (if given.all fun g => (parseInt? g).isSome || !(g.startsWith "+") then some bad else none)
+    else
+    match given.mapM compileRe with
+    | none => none
+    | some res =>
+      if res.any Option.isNone then some bad else
+      if rows.any (fun r => !Regex.asciiOnly r.1) then none else
+      let rs := res.filterMap id
+      some (ok (rows.filter fun r => (rs.any fun re => Regex.matchString re r.1) != rev))
+  else
+  if flag fl "--indices" then
+    match given.mapM parseInt? with
+    | none => if given.any (·.startsWith "+") then none else some bad
+    | some is => some (ok ((rows.zipIdx.filter fun (_, i) => is.contains (i : Int) != rev).map Prod.fst))
+  else some (ok (rows.filter fun r => given.contains r.1 != rev))
+
 def expected2 (rows : Rows) (argv : List String) : Option String :=
   let L := lenOf rows
   match argv with
+  | "rename" :: fl =>
+    if fl == ["--clean-names"] then some (ok (pairs (cleanNames (bagOf rows)))) else do
+    match ← renameRegexpResult rows fl with
+    | none => some bad
+    | some (r, _, mf) => if mf == "none" || mf == "None" then some (ok r) else none
+  | "replace" :: "-s" :: o :: "-n" :: nw :: [] =>
+    -- cmd/replace.go, literal replacement; an alignment whose rows no longer have one length is an error
+    if o.isEmpty then none else
+    let r := replaceBag (bytesOfString o) (bytesOfString nw) (bagOf rows)
+    some (if r.2 then bad else ok (pairs r.1))
+  | "replace" :: fl => do
+    -- every flag in any order, short or long; `-e`: `--old` is a regular expression, `--new` its replacement template;
+    -- both must be given (their defaults, the word `none`, are never used)
+    let o ← parseOpts [("-e", "--regexp"), ("-s", "--old"), ("-n", "--new")] ["--regexp"] ["--regexp", "--old", "--new"] fl
+    if (← effective "replaceCmd" "output") != "stdout" || (← effective "replaceCmd" "posfile") != "none" ||
+       (← effective "replaceCmd" "unaligned") != "false" then none
+    let isRe := (← optOr o "replaceCmd" "regexp") == "true"
+    match (o.reverse.find? (·.1 == "--old")).map (·.2), (o.reverse.find? (·.1 == "--new")).map (·.2) with
+    | some old, some new =>
+      if rows.isEmpty then none else
+      if isRe then
+        match ← compileRe old with
+        | none => some bad
+        | some re =>
+          let seqs ← rows.mapM fun r => Regex.replaceAll re new (stringOfBytes r.2)
+          if rows.any (fun r => r.2.any (· ≥ 128)) then none else
+          let table := rows.zip seqs
+          let f (q : Seq) : Seq := match table.find? (·.1.2 == q) with | some e => bytesOfString e.2 | none => q
+          let r := replaceBagWith f (bagOf rows)
+          -- an empty sequence is not written back as a FASTA record the reader model takes
+          if r.1.rows.any (·.seq.isEmpty) then none else
+          some (if r.2 then bad else ok (pairs r.1))
+      else
+        if old.isEmpty then none else
+        let r := replaceBag (bytesOfString old) (bytesOfString new) (bagOf rows)
+        if r.1.rows.any (·.seq.isEmpty) then none else
+        some (if r.2 then bad else ok (pairs r.1))
+    | _, _ => some bad
   | "trim" :: "seq" :: fl => do
     -- cmd/seq.go: TrimSequences(n, fromStart); -n defaults to 1
     let n ← parseInt? ((opt fl "-n").getD (← effective "seqCmd" "nb-char"))
@@ -246,12 +343,6 @@ def expected2 (rows : Rows) (argv : List String) : Option String :=
     if flag fl "-a" then some (ok (pairs (trimNamesAuto 1 (bagOf rows)).1)) else
     let n ← parseInt? ((opt fl "-n").getD (← effective "nameCmd" "nb-char"))
     let r := trimNames n (bagOf rows)
-    some (if r.2 then bad else ok (pairs r.1))
-  | ["rename", "--clean-names"] => some (ok (pairs (cleanNames (bagOf rows))))
-  | ["replace", "-s", o, "-n", nw] =>
-    -- cmd/replace.go, literal replacement; an alignment whose rows no longer have one length is an error
-    if o.isEmpty then none else
-    let r := replaceBag (bytesOfString o) (bytesOfString nw) (bagOf rows)
     some (if r.2 then bad else ok (pairs r.1))
   | "clean" :: "seqs" :: "-c" :: cut :: fl => do
     let (num, den) ← decFrac cut
@@ -266,14 +357,9 @@ def expected2 (rows : Rows) (argv : List String) : Option String :=
     | some (b, _) => some (ok (pairs b))
     | none => none
   | "subset" :: fl =>
-    -- cmd/subset.go (names or 0-based indices on the command line, `-r` keeps the complement; no pattern matching)
-    let rev := flag fl "-r" || flag fl "--revert"
-    let given := fl.filter fun a => !a.startsWith "-"
-    if flag fl "--indices" then
-      match given.mapM String.toNat? with
-      | none => some bad
-      | some is => some (ok ((rows.zipIdx.filter fun (_, i) => is.contains i != rev).map Prod.fst))
-    else some (ok (rows.filter fun r => given.contains r.1 != rev))
+    -- names, indices or expressions on the command line
+    if flag fl "-f" || flag fl "--name-file" then none else
+    subsetExpected rows (fl.filter fun a => !a.startsWith "-") fl
   | ["stats", "alphabet"] =>
     -- the alphabet the reader detected (`AutoAlphabet`), of the first alignment
     if rows.isEmpty then none else
@@ -403,13 +489,41 @@ def expectedF (rows : Rows) (files : List (String × String)) (argv : List Strin
       let n ← parseInt? ((opt fl "-n").getD (← effective "nameCmd" "nb-char"))
       let r := trimNames n (bagOf rows)
       if r.2 then some badF else some (okF (pairs r.1) (mf ++ "=" ++ nameMapText (old.zip ((pairs r.1).map Prod.fst))))
-  | "rename" :: "-m" :: mf :: fl => do
+  | "rename" :: fl =>
+    if flag fl "-e" || flag fl "--regexp" then do
+      -- the alignment on stdout, the map (old name, new name) in the file given with `-m`
+      match ← renameRegexpResult rows fl with
+      | none => some badF
+      | some (r, m, mf) =>
+        if mf == "none" || mf == "None" then some (okF r "") else
+        some (okF r (← filesPart [(mf, nameMapText m)]))
+    else
+    match fl with
+    | "-m" :: mf :: fl => do
     let f ← files.find? (·.1 == mf)
     let m ← ((f.2.splitOn "|").filter (· != "")).mapM fun l =>
       match l.splitOn "~" with
       | [a, b] => some (if flag fl "-r" then (b, a) else (a, b))
       | _ => none
     some (okF (pairs (rename m (bagOf rows))) "")
+    | _ => none
+  | "subset" :: fl => do
+    -- `-f <file>`: the names (indices, expressions) are read from the file, one per line and / or comma separated;
+    -- what the command line names is not looked at
+    let o ← parseOpts [("-f", "--name-file"), ("-r", "--revert"), ("-e", "--regexp")] ["--revert", "--regexp", "--indices"]
+      ["--name-file", "--revert", "--regexp", "--indices"] (fl.filter fun a => a.startsWith "-" || (opt fl "-f" == some a) || (opt fl "--name-file" == some a))
+    let nf ← (o.reverse.find? (·.1 == "--name-file")).map (·.2)
+    if nf == "stdin" || nf == "-" || nf.endsWith ".gz" then none
+    match files.find? (·.1 == nf) with
+    | none => some badF
+    | some f =>
+      let ls := f.2.splitOn "|"
+      let ls := if ls.getLast? == some "" then ls.dropLast else ls
+      if ls.any (fun l => l.contains '\r') then none else
+      let given := ls.flatMap fun l => l.splitOn ","
+      match subsetExpected rows given.eraseDups (fl.filter fun a => a.startsWith "-" && a != "-f" && a != "--name-file") with
+      | some r => some (r ++ " files=")
+      | none => none
   | "concat" :: other :: fl => do
     -- cmd/concat.go: the alignment of stdin, then the one of the file; `-l` writes the coordinates
     let o ← fileRows other
